@@ -24,7 +24,8 @@ impl MarkerBuilder for UnwrapBlockMarkerBuilder {
         // If the range is invalid, do nothing.
         match (start_el_remove_end_pos, end_el_remove_start_pos) {
             (Some(end), Some(start)) => {
-                if start > end {
+                // `start == end` when exactly the two wrapper lines lie between the tags.
+                if start >= end {
                     (
                         el.start_token.byte_start..end,
                         Some(start + 1..el.end_token.byte_end),
